@@ -591,8 +591,10 @@ class Group:
         path = os.path.join(OUT, self.name + ".lean")
         old = open(path).read() if os.path.exists(path) else None
         if old != text:
-            with open(path, "w") as f:
+            tmp = path + ".%d.tmp" % os.getpid()
+            with open(tmp, "w") as f:
                 f.write(text)
+            os.replace(tmp, path)
 
     def write(self):
         os.makedirs(OUT, exist_ok=True)
@@ -602,8 +604,10 @@ class Group:
         path = os.path.join(OUT, self.name + ".lean")
         old = open(path).read() if os.path.exists(path) else None
         if old != text:
-            with open(path, "w") as f:
+            tmp = path + ".%d.tmp" % os.getpid()
+            with open(tmp, "w") as f:
                 f.write(text)
+            os.replace(tmp, path)
 
 
 def prof_arr(name):
@@ -1444,8 +1448,10 @@ def main():
             report[g.name] = g.report
         except Exception as e:  # noqa: BLE001
             report[mk.__name__] = {"_group": "FAILED: %r" % (e,)}
-    with open(os.path.join(OUT, "report.json"), "w") as f:
+    tmp = os.path.join(OUT, "report.json.%d.tmp" % os.getpid())
+    with open(tmp, "w") as f:
         json.dump(report, f, indent=1, sort_keys=True)
+    os.replace(tmp, os.path.join(OUT, "report.json"))
     bad = [(g, k, v) for g, r in report.items() for k, v in r.items() if isinstance(v, str) and v.startswith("FAILED")]
     for g, k, v in bad:
         print("extract: %s.%s %s" % (g, k, v))
